@@ -1599,6 +1599,9 @@ impl Handler<RaftLogManagerRequest> for RaftLogManager {
                 Ok(RaftLogResponse::None)
             }
             RaftLogManagerRequest::InstallSnapshotPointerLog(snapshot_pointer) => {
+                // an installed snapshot supersedes the pointers staged by earlier local compactions
+                self.pre_ready_snapshot_pointer = None;
+                self.last_ready_snapshot_pointer = None;
                 self.save_new_snapshot_pointer(ctx, snapshot_pointer);
                 Ok(RaftLogResponse::None)
             }
